@@ -15,9 +15,9 @@ import Sqljson.Model.Exec
   (`date_roundtrip_fixed`, `timestamp_roundtrip_fixed`), and for named zones whenever the first
   lookup's period contains the instant (`resolves_of_first`);
 * `.string()` inside a path prints `String()`: `path_string_same`;
-* **known finding D21** `unmarshal_panics_iff`: `UnmarshalJSON` panics exactly on inputs shorter than
-  two bytes and, for `TimeTZ`, shorter than eleven bytes (so the full statement "returns an error
-  instead of panicking" is false of the code); `unmarshal_one_byte_panics`.
+* `unmarshalJSON_never_panics` (repaired defect D21): `UnmarshalJSON` of every type returns a value
+  or an error for **every** byte string — short strings, non-strings, `null` — never a panic;
+  `unmarshalJSON_short`: input without room for the quotes is an error.
 
 Not proved (validated by the correspondence stream only): `ParseTime(String(v)) = v` and the JSON
 round trip as theorems about the layout interpreter.
